@@ -782,7 +782,7 @@ class EvolutionSuperOperator(SuperOperator, TimeDependent, Saveable):
                 
                 return rhot
 
-            elif isinstance(time, (list, numpy.array, tuple, TimeAxis)):
+            elif isinstance(time, (list, numpy.ndarray, tuple, TimeAxis)):
                 
                 #
                 # we apply at points specified by TimeAxis
